@@ -612,7 +612,10 @@ class Glue:
         # without its trailing zeros (none are counted away here: an upper bound on the digit count suffices)
         val = odd * (5 ** q) if q > 0 else odd * (2 ** (-q))
         bad = val >= 10 ** n
-        r = lia.check(st.pc, st.extras, (), raw=list(st.raw) + list(mside) + [bad])
+        # a witness with odd M is preferred: a tie that loses digits is rounded down, which is wrong exactly when M is odd
+        r = lia.check(st.pc, st.extras, (), raw=list(st.raw) + list(mside) + [bad, m % 2 == 1])
+        if r != 'sat':
+            r = lia.check(st.pc, st.extras, (), raw=list(st.raw) + list(mside) + [bad])
         self.ses.obligations = getattr(self.ses, 'obligations', 0) + 1
         if r == 'unsat':
             rec[0] += 1
